@@ -503,6 +503,24 @@ func PbParse(b []byte) ([]PbField, error) {
 	return fs, nil
 }
 
+// PbSerialize re-serialises parsed fields in their order.
+func PbSerialize(fs []PbField) []byte {
+	out := []byte{}
+	for _, f := range fs {
+		switch f.Wt {
+		case 0:
+			out = append(out, PbUint(f.Num, f.Val)...)
+		case 1:
+			out = append(out, cat(pbTag(f.Num, 1), U64(f.Val))...)
+		case 2:
+			out = append(out, PbBytes(f.Num, f.Data)...)
+		case 5:
+			out = append(out, cat(pbTag(f.Num, 5), U32(uint32(f.Val)))...)
+		}
+	}
+	return out
+}
+
 // PbCanon re-serialises parsed fields sorted by field number (stable), so two
 // serialisations that differ only in field order compare equal.
 func PbCanon(fs []PbField) string {
